@@ -94,9 +94,9 @@ def allocVertex (w : World) (c : VCls) (attrs : List (Nat × Nat)) (us : List VI
             attrs := upd w.attrs w.nV attrs
             cache := upd w.cache w.nV [] }, w.nV)
 
-/-- `UniverseLaws()` -/
-def allocLaws (w : World) : World × WId :=
-  ({ w with nW := w.nW + 1, appliesTo := upd w.appliesTo w.nW none }, w.nW)
+/-- `UniverseLaws(<rule arguments number r>)`; `r = 0` are the defaults -/
+def allocLaws (w : World) (r : Nat := 0) : World × WId :=
+  ({ w with nW := w.nW + 1, appliesTo := upd w.appliesTo w.nW none, rules := upd w.rules w.nW r }, w.nW)
 
 end M
 end EG
